@@ -83,6 +83,38 @@ Definition src_fn_Bound_is_inclusive (self_ : src_Bound) : bool :=
   | src_Bound_Unbounded => true
   end.
 
+Definition src_fn_StreamBuilder_ge (self_min self_max : src_Bound) (bound : list N) : (src_Bound * src_Bound) :=
+  let selfmin := (src_Bound_Included bound) in
+  (selfmin, self_max).
+
+Definition src_fn_StreamBuilder_gt (self_min self_max : src_Bound) (bound : list N) : (src_Bound * src_Bound) :=
+  let selfmin := (src_Bound_Excluded bound) in
+  (selfmin, self_max).
+
+Definition src_fn_StreamBuilder_le (self_min self_max : src_Bound) (bound : list N) : (src_Bound * src_Bound) :=
+  let selfmax := (src_Bound_Included bound) in
+  (self_min, selfmax).
+
+Definition src_fn_StreamBuilder_lt (self_min self_max : src_Bound) (bound : list N) : (src_Bound * src_Bound) :=
+  let selfmax := (src_Bound_Excluded bound) in
+  (self_min, selfmax).
+
+Definition src_fn_StreamWithStateBuilder_ge (self_min self_max : src_Bound) (bound : list N) : (src_Bound * src_Bound) :=
+  let selfmin := (src_Bound_Included bound) in
+  (selfmin, self_max).
+
+Definition src_fn_StreamWithStateBuilder_gt (self_min self_max : src_Bound) (bound : list N) : (src_Bound * src_Bound) :=
+  let selfmin := (src_Bound_Excluded bound) in
+  (selfmin, self_max).
+
+Definition src_fn_StreamWithStateBuilder_le (self_min self_max : src_Bound) (bound : list N) : (src_Bound * src_Bound) :=
+  let selfmax := (src_Bound_Included bound) in
+  (self_min, selfmax).
+
+Definition src_fn_StreamWithStateBuilder_lt (self_min self_max : src_Bound) (bound : list N) : (src_Bound * src_Bound) :=
+  let selfmax := (src_Bound_Excluded bound) in
+  (self_min, selfmax).
+
 Definition src_fn_Output_prefix (self0 o : N) : N :=
   (N.min self0 o).
 
